@@ -246,8 +246,8 @@ SIGN_SWAP_CALLS = {'argmax': 'argmin', 'argmin': 'argmax', 'max': 'min', 'min': 
 def index(base, k):
     if base[0] == 'nd':
         base = base[1]
-    if base[0] == 'lin' and base[1] == 0:                 # (sum c_i x_i)[k] = sum c_i x_i[k]
-        return lin(0, [(index(t, k), c) for t, c in base[2]])
+    if base[0] == 'lin' and base[1] == 0:                 # (sum c_i x_i)[k] = sum c_i x_i[k]   (integer scalars are broadcast, not indexed)
+        return lin(0, [(t if is_int(t) else index(t, k), c) for t, c in base[2]])
     if base[0] in ('tuple', 'list') and isconst(k) and isinstance(k[1], int) and not isinstance(k[1], bool):
         if -len(base[1]) <= k[1] < len(base[1]):
             return base[1][k[1]]
@@ -455,7 +455,22 @@ def or_(ts):
             out.extend(t[1])
         else:
             out.append(t)
-    out = sort_terms(set(out))
+    # absorption: A or (not A and B) == A or B
+    outs = set(out)
+    changed = True
+    while changed:
+        changed = False
+        for t in list(outs):
+            if t[0] == 'and':
+                rest = [x for x in t[1] if not_(x) not in outs]
+                if len(rest) != len(t[1]):
+                    outs.discard(t)
+                    outs.add(and_(rest))
+                    changed = True
+                    break
+    if TRUE in outs:
+        return TRUE
+    out = sort_terms(outs - {FALSE})
     if not out:
         return FALSE
     return out[0] if len(out) == 1 else ('or', out)
@@ -506,6 +521,10 @@ def gamma(c, a, b):
         b = b[3]
     if a == b:
         return a
+    if b[0] == 'gamma' and b[2] == a:
+        return gamma(or_([c, b[1]]), a, b[3])
+    if a[0] == 'gamma' and a[3] == b:
+        return gamma(and_([c, a[1]]), a[2], b)
     # "nan if all the candidates are nan else nanmin(some of them)"  ==  nanmin(some of them)
     if a == NAN and c[0] == 'call' and c[1] == 'all' and len(c[2]) == 1 and c[2][0][0] == 'call' and c[2][0][1] == 'isnan' \
             and b[0] == 'call' and b[1] in ('nanmin', 'nanmax') and len(b[2]) == 1 and b[2][0][0] == 'tuple' \
@@ -530,16 +549,33 @@ def arr_store(cur, k, v, g):
             cj.discard(c)
             g = and_(cj)
     init, stores = (cur[1], cur[2]) if cur[0] == 'arr' else (cur, ())
-    if stores:
+    merged = False
+    while stores:
         k0, v0, g0 = stores[-1]
-        if k0 == k:
-            a, b = _conj(g0), _conj(g)
-            da, db = a - b, b - a
-            if len(da) == 1 and len(db) == 1:
-                (x,), (y,) = da, db
-                if not_(x) == y or not_(y) == x:
-                    return ('arr', init, stores[:-1] + ((k, gamma(x, v0, v), and_(a & b)),))
-    return ('arr', init, stores + ((k, v, g),))
+        if k0 != k:
+            break
+        a, b = _conj(g0), _conj(g)
+        da, db = a - b, b - a
+        if len(da) == 1 and len(db) == 1:
+            (x,), (y,) = da, db
+            if not_(x) == y or not_(y) == x:
+                # if/else (and, repeatedly, if/elif/else chains) storing to the same place: one store of the selected value
+                stores, v, g = stores[:-1], gamma(x, v0, v), and_(a & b)
+                merged = True
+                continue
+        break
+    if merged:
+        cur = ('arr', init, stores) if stores else init
+        init, stores = (cur[1], cur[2]) if cur[0] == 'arr' else (cur, ())
+    if False:
+        pass
+    stores = list(stores) + [(k, v, g)]
+    # stores of the SAME value under the SAME guard commute (even if the indices alias): canonical order
+    i = len(stores) - 1
+    while i > 0 and stores[i - 1][1] == v and stores[i - 1][2] == g and key(stores[i - 1][0]) > key(k):
+        stores[i - 1], stores[i] = stores[i], stores[i - 1]
+        i -= 1
+    return ('arr', init, tuple(stores))
 
 
 def merge_arrs(a, b):
